@@ -667,12 +667,17 @@ class Explorer(BaseExplorer):
         """finite nondeterministic choice in range(n), concrete per path"""
         k = self.counter.get("choice_" + label, 0)
         self.counter["choice_" + label] = k + 1
+        name = "choice_%s_%d" % (label, k)
+        if name in self.choices:
+            # the same named choice again (self-composition harnesses rewind the draw counters for the second run):
+            # it is the same input, not a new decision
+            return self.choices[name]
         r = n - 1
         for i in range(n - 1):
             if self.decide_free():
                 r = i
                 break
-        self.choices["choice_%s_%d" % (label, k)] = r
+        self.choices[name] = r
         return r
 
     def var(self, name):
